@@ -284,7 +284,7 @@ func checkC15(w *Worker) {
 		})
 	})
 	// every special scenario (harness/specials.go) through every presentation
-	specials := specialScenarios()
+	specials := specialsFor(w.Tier)
 	w.Explore("special-scenarios", ExploreOpts{ShardDepth: 4}, func(x *Exec) {
 		present(x, func(x *Exec) (absLog, string) {
 			sc := specials[x.Choose(len(specials), "input:scenario")]
